@@ -53,12 +53,23 @@ def permute(X, how, rng):
     return X[rng.permutation(n)].copy()
 
 
-def run(name, params, batches, key):
+def run(name, params, batches, key, frames=None):
+    """frames: None (ndarrays) or a list of index arrays - batch i is then handed over as a DataFrame carrying those row labels
+    (a shuffled frame keeps its labels, e.g. after df.sample(frac=1))"""
+    import pandas as pd
+
     det = zoo.make(name, params)
     out = []
     for i, X in enumerate(batches):
         np.random.seed(rngtap.seed_for(key, i))
-        zoo.feed(det, name, X, first=(i == 0))
+        if frames is not None:
+            arg = pd.DataFrame(np.asarray(X).copy(), columns=["c%d" % j for j in range(X.shape[1])], index=frames[i])
+            if i == 0 and name != "KdqTreeBatch":
+                det.set_reference(arg)
+            else:
+                det.update(arg)
+        else:
+            zoo.feed(det, name, X, first=(i == 0))
         o = {"state": det.drift_state}
         if name in ("HDDDM", "CDBD"):
             o["distance"] = zoo.fl(det.current_distance) if i > 0 else None
@@ -87,13 +98,22 @@ def run_case(case, ctx):
         m = min(len(b) for b in batches)
         batches = [b[:m] for b in batches]
     key = case.get("seed_key", case["id"])
-    orig = run(name, params, batches, key)
+    as_frames = bool(rng.random() < 0.3)
+    if as_frames:
+        ctx.count("histories_as_labelled_frames")
+    orig = run(name, params, batches, key, [np.arange(len(b)) for b in batches] if as_frames else None)
     drift = any(o["state"] == "drift" for o in orig)
     if name == "NNDVI":
         ctx.count("nndvi_unequal_size_pairs", sum(1 for a, b in zip(batches, batches[1:]) if len(a) != len(b)))
     for how in ("reverse", "rotate", "shuffle", "shuffle"):
-        pb = [permute(b, how, rng) for b in batches]
-        perm = run(name, params, pb, key)
+        if as_frames:
+            orders = [np.arange(len(b))[::-1] if how == "reverse" else (np.roll(np.arange(len(b)), max(1, len(b) // 3)) if how == "rotate" else rng.permutation(len(b)))
+                      for b in batches]
+            pb = [b[o].copy() for b, o in zip(batches, orders)]
+            perm = run(name, params, pb, key, orders)
+        else:
+            pb = [permute(b, how, rng) for b in batches]
+            perm = run(name, params, pb, key)
         ctx.count("permuted_runs_compared")
         parted = False
         for i, (a, b) in enumerate(zip(orig, perm)):
